@@ -49,6 +49,8 @@ def make_experiments(d, seed):
     shutil.copy(paths["A"]["one"][0], os.path.join(d, "A2.bam"))
     shutil.copy(paths["A"]["one"][0] + ".bai", os.path.join(d, "A2.bam.bai"))
     paths["A2"] = {"one": [os.path.join(d, "A2.bam")], "two": paths["A"]["two"], "skew": paths["A"]["skew"]}
+    # experiment names that differ only in surrounding white space are different names (different output folders)
+    paths["B "] = paths["C"]
     return paths
 
 
@@ -141,11 +143,11 @@ def run(chk, scratch):
                     (["A", "B"], "one", 1, "yaml-nomodels"), (["C", "A", "B"], "one", 1, "yaml"),
                     (["A", "B"], ("one", "skew"), 1, "yaml"), (["B", "A"], ("skew", "one"), 1, "yaml"), (["C", "A", "B"], ("one", "skew", "two"), 4, "list"),
                     (["A", "B"], "skew", 4, "yaml"), (["A", "B"], "two", 1, "yaml-unl:B"), (["B", "A", "C"], "two", 2, "yaml-unl:B,C"),
-                    (["C", "A"], ("one", "two"), 1, "yaml-unl:C")]
+                    (["C", "A"], ("one", "two"), 1, "yaml-unl:C"), (["B", "B "], "one", 1, "yaml"), (["B ", "A", "B"], "two", 3, "yaml")]
         else:
             seqs = [(["A", "B", "C"], "one", 1, "yaml"), (["B", "A"], "one", 4, "list"), (["A", "B"], "two", 1, "yaml"),
                     (["A", "A2"], "one", 1, "yaml"), (["A", "B"], ("one", "skew"), 1, "yaml"), (["B", "A"], ("skew", "one"), 2, "list"),
-                    (["A", "B"], "two", 2, "yaml-unl:B")]
+                    (["A", "B"], "two", 2, "yaml-unl:B"), (["B", "B "], "one", 2, "yaml")]
         # stand-alone runs (per experiment x files x threads x mode)
         # a sequence whose experiments differ in the number of files runs (stand-alone and joint) with an explicit --read_group file_name,
         # which a mixed sequence would otherwise switch on implicitly for all experiments
@@ -161,8 +163,9 @@ def run(chk, scratch):
 
         def run_solo(key):
             n, nf, t, mode, rg = key
-            out = os.path.join(d, "solo_%s_%s_%d_%s_%s" % (n, nf, t, mode, rg))
-            inp = os.path.join(d, "solo_%s_%s_%s_%s.in" % (n, nf, mode, rg))
+            tag = n.replace(" ", "_sp")
+            out = os.path.join(d, "solo_%s_%s_%d_%s_%s" % (tag, nf, t, mode.replace(":", "-").replace(",", "-"), rg))
+            inp = os.path.join(d, "solo_%s_%s_%s_%s.in" % (tag, nf, mode.replace(":", "-").replace(",", "-"), rg))
             extra = ["--no_model_construction"] if mode.endswith("nomodels") else []
             extra += ["--read_group", "file_name"] if rg else []
             if mode.startswith("yaml"):
